@@ -448,6 +448,8 @@ def _seq_case(rng, sc, big=False):
     nv = rng.choice([0, 0, 0, 1, 2])
     if big:     # scale: 40..150 genes and a dozen feature collections on a few kb
         L, ng, nf, nv = rng.choice([3000, 6000]), rng.choice([40, 80, 150]), rng.randint(8, 16), 0
+    if big == "huge":     # > 1024 members (strategies that switch by the number of children), sequence-less
+        L, ng, nf, nv, mode = 40000, 1100, 4, 0, "none"
     cspec = _rand_cspec(rng, 0, L, ng, nf, nv)
     members = members_from_spec(cspec)
     pspec = {"mode": mode, "glen": L, "gseed": rng.randrange(1 << 30), "seqname": "chr1", "window": None,
@@ -530,6 +532,18 @@ def _band_case(rng, sc, k):
             gap_ranges.append([q0, srng.randint(q0 + 1, b[0] - 1)])
         gap_ranges.append([a[1] - 1, a[1] + 5])
         gap_ranges.append([b[0] - 5, b[0] + 1])
+    # small genes straddling 128 kb boundaries far inside a query several megabases wide (the query's bin set has to enumerate the
+    # interior bins of every level)
+    if srng.random() < 0.35:
+        B = 1 << 17
+        for j2, jj in enumerate(sorted(srng.sample(range(3, 40), 3))):
+            bnd = c + jj * B
+            gsp = GG.rand_gene_spec(srng, bnd - 3, bnd + 3, ntx=1, ident=f"deep{j2}", coding=False, max_exons=1, qualifiers=False)
+            gsp["transcripts"][0]["exons"] = [[bnd - 3, bnd + 3]]
+            gsp["transcripts"][0]["cds"], gsp["transcripts"][0]["frames"] = None, None
+            cspec["genes"].append(gsp)
+        gap_ranges.append([max(1, c - B // 2), c + 41 * B + 7])
+        gap_ranges.append([max(1, c - 3), c + 12 * B + 1])
     members = members_from_spec(cspec)
     pspec = {"mode": "none", "glen": 0, "gseed": 0, "seqname": "chr1", "window": None, "alphabet": "ACGT"}
     r = rng.random()
@@ -557,6 +571,10 @@ def cases(spec, ctx):
         yield _seq_case(rng, sc)
     if i % 4 == 0:
         yield _seq_case(__import__("random").Random(f"C09-big:{ctx.seed}:{i}"), sc, big=True)
+    if i == 5:
+        hc = _seq_case(__import__("random").Random(f"C09-huge:{ctx.seed}"), dict(sc, NR=2), big="huge")
+        hc["pool"], hc["nsecond"], hc["huge"] = 1, 1, True
+        yield hc
     for j in range(sc["NBAND"] // n + 1):
         yield _band_case(rng, sc, KS[(j + i) % len(KS)])
 
@@ -1017,6 +1035,27 @@ def run_case(case, ctx):
         for flags in (FLAGS[2], FLAGS[0]):      # strict and relaxed, no filter, no expansion
             _pos_query(ctx, M, obj, s0, e0, flags, 1, mode + "-asked-again")
 
+    # ---- a second collection with the same names on a genome that differs in ONE base in the middle of a queried window, asked the
+    # same window in the same process: its members carry ITS sequence (re-chunked parents must not be shared between genomes that
+    # agree in name, length and both ends) ----------------------------------------------------------------------------------
+    if genome and M["win"] is not None and not case.get("huge"):
+        import copy
+
+        wide = [(s0, e0) for s0, e0 in ranges if s0 is not None and e0 is not None and e0 - s0 >= 70 and M["start"] <= s0 and e0 <= M["end"]
+                and M["win"][0] <= s0 and e0 <= M["win"][1]][:1]
+        for s0, e0 in wide:
+            mid = (s0 + e0) // 2
+            g2 = genome[:mid] + {"A": "C", "C": "G", "G": "T", "T": "A"}.get(genome[mid].upper(), "A") + genome[mid + 1:]
+            obj2, exc2 = ctx.call(build, cspec, pspec, g2)
+            if exc2 is not None:
+                continue
+            members2 = copy.deepcopy(members_from_spec(cspec))
+            _attach_guids(members2, obj2)
+            M2 = {"start": b[0], "end": b[1], "win": source_window(pspec), "genome": g2, "members": members2}
+            for flags in (FLAGS[0], FLAGS[2]):
+                _pos_query(ctx, M, obj, s0, e0, flags, 1, mode + "-twin-genome-first")
+                _pos_query(ctx, M2, obj2, s0, e0, flags, 1, mode + "-twin-genome-second")
+            ctx.bump("twin-genome-queries")
     # ---- second generation: the operand is itself the result of a query (on a chunk when there is sequence) ----------
     cand = [(o, f) for o, f in firsts if o[1]["members"]]
     # prefer relaxed, non-expanded results (members overhang the new bounds) and strict ones with >= 2 members
